@@ -481,6 +481,38 @@ static void check_c06(const TypeOps& t) {
         }
       }
     }
+    // "remaining capacity": the same sweep on a writer that already holds one copy of the value; the second Write sees
+    // c bytes of remaining space in a buffer of len + c bytes (capacities near both ends)
+    if (gs == len)
+      for (auto& w : t.writers) {
+        if (w.unbounded) continue;
+        for (size_t c = 0; c <= gs + 1; c++) {
+          if (c > 4 && c + 4 < gs) continue;
+          auto idf = CASE_ID("C06|" + t.name + "|v" + std::to_string(i) + "|W:" + w.name + "|second|rem" + std::to_string(c));
+          if (!selected(idf)) continue;
+          if (out_of_time()) { R.add("incomplete"); return; }
+          void* op[2] = {p.objs[i]->p, p.objs[i]->p};
+          WOut o = w.run(op, 2, len + c);
+          R.counters["evaluations"]++;
+          R.add("remaining_capacity_cases");
+          if (len > 1) R.distinct_direct++;
+          if (!o.intact)
+            R.viol("C06|wrote-past-end|" + w.name + "|" + shape(t.sch) + tags(t.sch), idf(),
+                   "second Write with " + std::to_string(c) + " bytes remaining modified bytes beyond the end of the buffer", detail(t, p.vals[i], kvn("remaining", c)));
+          if (c >= gs) {
+            if (o.err)
+              R.viol("C06|failed-despite-capacity|" + w.name + "|" + ename(o.err) + "|" + shape(t.sch) + tags(t.sch), idf(),
+                     std::to_string(c) + " bytes remaining >= GetSize " + std::to_string(gs) + " but Write #" + std::to_string(o.failed_at) + " failed with " + ename(o.err), detail(t, p.vals[i]));
+          } else if (o.err != (int)nop::ErrorStatus::WriteLimitReached || o.failed_at != 1) {
+            R.viol("C06|too-small-not-refused|" + w.name + "|" + ename(o.err) + "|" + shape(t.sch) + tags(t.sch), idf(),
+                   std::to_string(c) + " bytes remaining < GetSize " + std::to_string(gs) + " but the second Write returned " + ename(o.err) +
+                       (o.err ? " (failing write #" + std::to_string(o.failed_at) + ")" : ""), detail(t, p.vals[i]));
+          } else if (o.reported != len) {
+            R.viol("C06|partial-write-after-failed-prepare|" + w.name + "|" + shape(t.sch) + tags(t.sch), idf(),
+                   "second Write refused for lack of space but the writer holds " + std::to_string(o.reported) + " bytes instead of " + std::to_string(len), detail(t, p.vals[i]));
+          }
+        }
+      }
     if (i == 0) R.sample(detail(t, p.vals[i], kvn("getsize", gs) + "," + kvn("len", len)));
   }
 }
